@@ -38,8 +38,8 @@ def run():
     # 2. the same path underneath the blocking facilities, with the delays moved to the
     #    state-word hooks (resume-before-suspend window widened to hundreds of microseconds)
     env = {"VERIF_PERTURB_SITES": STATEWORD_SITES, "VERIF_PERTURB_MAXUS": "400", "VERIF_PERTURB_PCT": "35"}
-    runs = [([chk.seed * 1000 + 100 + i, 40, 1, "cv", "--pika:threads=%d" % [2, 4, 3][i % 3]], env)
-            for i in range(8 * n)]
+    runs = [([chk.seed * 1000 + 100 + i, 30, 1, ["cv", "mutex"][i % 2], "--pika:threads=%d" % [2, 4, 3][i % 3],
+              "--pika:scheduler=%s" % SCHEDULERS[(i // 2) % 8]], env) for i in range(16 * n)]
     hist2 = vlib.collect_histories(chk, sync, runs, "c02s", timeout=400)
     for h, o in hist2:
         chk.add_case(h, nontrivial=any((r.get("op") or "").startswith("wait") for r in h))
